@@ -158,3 +158,11 @@ Theorem C06_fresh_builders_satisfy_invariant :
   Inv init_system /\ forall a b n, 0 <= a <= 32767 -> 0 <= b <= 32767 -> Inv (init_user a b n).
 Proof. exact (conj Inv_init_system Inv_init_user). Qed.
 Print Assumptions C06_fresh_builders_satisfy_invariant.
+
+(* ======================================================================================================================
+   The other public routes to the compiler (command-line tool `sudachi build` / `ubuild`, Python build_system_dic /
+   build_user_dic) wrap compile in a BufWriter.  Fact: each of them flushes the writer after compile and checks the result
+   (a BufWriter flushed by Drop ignores I/O errors), so C06_sink_failure_propagates reaches the caller of the route; the
+   routes themselves are exercised by the run (normal output = the library's bytes; failing output file => error). *)
+Fact C06_front_ends_flush_their_writers : BuildGuards.front_end_unflushed_writers = [].
+Proof. vm_compute. reflexivity. Qed.
